@@ -213,6 +213,95 @@ func init() {
 		}
 		l.def("c14ExecRunFailCond", "String", strconv.Quote(execCond), "pkg/executor/executor.go RunAndLogLines: condition of the if after err := e.cmd.Run()")
 		l.def("c14HookRunFailCond", "String", strconv.Quote(hookCond), "pkg/hook/hook.go Run: condition of the if after hookCmd.RunAndLogLines(…)")
+		// may a failed run of an admission hook count as a success? For every return of HandleEvent the source of the
+		// AllowFailure field of the returned BindingExecutionInfo literal ("<absent>" = not set: false)
+		afExprs := []string{}
+		if fd := findFunc("pkg/hook/controller/admission_bindings_controller.go", "AdmissionBindingsController", "HandleEvent"); fd != nil && fd.Body != nil {
+			ast.Inspect(fd.Body, func(x ast.Node) bool {
+				switch n := x.(type) {
+				case *ast.FuncLit:
+					return false
+				case *ast.ReturnStmt:
+					if len(n.Results) != 1 {
+						afExprs = append(afExprs, "<not one result>")
+						return true
+					}
+					cl, ok := n.Results[0].(*ast.CompositeLit)
+					if !ok {
+						afExprs = append(afExprs, "<not a literal: "+srcOf(n.Results[0])+">")
+						return true
+					}
+					found := "<absent>"
+					for _, el := range cl.Elts {
+						kv, ok := el.(*ast.KeyValueExpr)
+						if !ok {
+							found = "<positional literal>"
+							break
+						}
+						if id, ok := kv.Key.(*ast.Ident); ok && id.Name == "AllowFailure" {
+							found = srcOf(kv.Value)
+						}
+					}
+					afExprs = append(afExprs, found)
+				}
+				return true
+			})
+		} else {
+			stale = true
+		}
+		l.def("c14HandleEventAllowFailure", "List String", leanStrList(afExprs), "pkg/hook/controller/admission_bindings_controller.go HandleEvent: AllowFailure of every returned BindingExecutionInfo")
+		// is the admissionResponse task prop stored after everything that can fail? The top-level statements of
+		// ShellOperator.handleRunHook that follow the one with SetProp("admissionResponse", …) and contain a return
+		// of something else than nil (an if: its condition)
+		afterProp := []string{}
+		if fd := findFunc("pkg/shell-operator/operator.go", "ShellOperator", "handleRunHook"); fd != nil && fd.Body != nil {
+			at := -1
+			for i, st := range fd.Body.List {
+				ast.Inspect(st, func(x ast.Node) bool {
+					call, ok := x.(*ast.CallExpr)
+					if !ok {
+						return true
+					}
+					if sel, ok := call.Fun.(*ast.SelectorExpr); ok && sel.Sel.Name == "SetProp" && len(call.Args) > 0 {
+						if lit, ok := call.Args[0].(*ast.BasicLit); ok && lit.Value == `"admissionResponse"` && at < 0 {
+							at = i
+						}
+					}
+					return true
+				})
+			}
+			if at < 0 {
+				stale = true
+				afterProp = append(afterProp, "<no SetProp(\"admissionResponse\", …) in handleRunHook>")
+			} else {
+				for _, st := range fd.Body.List[at+1:] {
+					fails := false
+					ast.Inspect(st, func(x ast.Node) bool {
+						if _, ok := x.(*ast.FuncLit); ok {
+							return false
+						}
+						if r, ok := x.(*ast.ReturnStmt); ok {
+							for _, e := range r.Results {
+								if id, ok := e.(*ast.Ident); !ok || id.Name != "nil" {
+									fails = true
+								}
+							}
+						}
+						return true
+					})
+					if fails {
+						if is, ok := st.(*ast.IfStmt); ok {
+							afterProp = append(afterProp, srcOf(is.Cond))
+						} else {
+							afterProp = append(afterProp, "<statement>")
+						}
+					}
+				}
+			}
+		} else {
+			stale = true
+		}
+		l.def("c14RunHookFailsAfterProp", "List String", leanStrList(afterProp), "pkg/shell-operator/operator.go handleRunHook: statements after SetProp(\"admissionResponse\") that can return an error")
 		l.def("c14FactsStale", "Bool", map[bool]string{true: "true", false: "false"}[stale], "extractor: a syntactic shape it expects was not found")
 	})
 }
